@@ -13,7 +13,6 @@ import contextlib
 import copy
 import json
 import sys
-import types
 from typing import Any, Iterator
 
 ROOT_NAMES = {
